@@ -7,7 +7,10 @@ RULE = ("abstract documents (props/docgen.py: 8 operators, quoted/unquoted/@vari
         "objects, arrays, arrays of objects, empty containers, headers, parameter blocks, arrays that turn into key-value lists) "
         "x layouts (minimal, spaced, LF, CRLF, tabs, comments, ';', BOM, random) x indent_char in {space, tab} x indent_factor 0..9, "
         "plus nesting chains to depth 14 (crossing the 16-byte indent cache) and a few exotic indent configurations for the "
-        "model/implementation comparison only. non-trivial = the tape has a container or operator and write_tape succeeded")
+        "model/implementation comparison only. non-trivial = the tape has a container or operator and write_tape succeeded. "
+        "Wave 4 (props/C14_reuse.py): writer SESSIONS -- one TextWriter over an owned Vec (into_inner at the end) that writes two tapes "
+        "one after the other, a tape inside 1..12 objects opened by direct calls, a tape after a direct key/value, with raw inner() "
+        "writes in between, builder defaults (no setter called) -- judged by metamorphic oracles on the real writer and parser")
 TRUSTED = ["the text parser (TextTape::from_slice) is used as is by the oracles; its own correctness is C01/C06's subject",
            "props/docgen.py flatten is cross-checked against the real parser on every run (stream parse)"]
 ASSUMPTIONS = ["round-trippable subset: objects that continue as a bare value list are excluded (documented by the writer)",
@@ -253,6 +256,10 @@ def run(ctx, widen=False):
             ctx.count("roundtrips_ok")
     if not widen:
         probe_bom_key(ctx)
+    # >>> a_wr (wave 4): reused writers, write_tape at depth, inner()/into_inner(), builder defaults
+    from props import C14_reuse
+    C14_reuse.run(ctx, _fail)
+    # <<< a_wr
 
 
 def probe_bom_key(ctx):
@@ -272,6 +279,6 @@ def search(ctx):
 
 CLAIM = {
     "text": "Coq theorems over a faithful Gallina model of text/writer.rs (9-state machine with the WRITE_STATE_NEXT table regenerated from the source, depth stack, line-terminator flag, mixed mode, 16-byte indent cache vs slow path, write_tape traversal over the DOM readers): the writer never panics on any call history, indentation is cache-independent for every indent char/factor, state queries are functions of the call prefix; the model is tied to the code by differential execution of write_tape (exact bytes + state queries, release and debug) on parsed renderings of generated documents, and the property's own oracles (parse(write(parse x)) = parse x, write-after-parse is a fixed point) are evaluated on the implementation with the real parser",
-    "note": "Since Props/C14_reparse.v the re-parse clause is a theorem too: write_tape (flatten d) = render d' (layout_w cfg d) for the round-trippable grammar and every config, composed with C01_parse_render (C14_reparse, C14_idempotent); the exclusions are the recorded known findings. Trusted: Coq kernel, tools/gen_tables.py, extraction, the Rust harness.",
+    "note": "Wave 4: Props/C14_reuse.v (C14_reuse_continues): a reused writer continues the document -- write_tape(t1); write_tape(t2) prints what write_tape(t1 ++ t2) prints and parses back to it; stream reuse + oracles reuse-bytes / reuse-reparse. Since Props/C14_reparse.v the re-parse clause is a theorem too: write_tape (flatten d) = render d' (layout_w cfg d) for the round-trippable grammar and every config, composed with C01_parse_render (C14_reparse, C14_idempotent); the exclusions are the recorded known findings. Trusted: Coq kernel, tools/gen_tables.py, extraction, the Rust harness.",
     "technique": "machine-checked proof in Coq over an executable model + model/implementation correspondence by extraction + round-trip oracles on the implementation",
 }
